@@ -56,6 +56,50 @@ ZeroPageWraps == \A x \in {0, 1, 128, 255}, b \in {0, 1, 127, 255} :
   LET c0 == At(90, x, 0, 253, FALSE, <<149, b>>) IN         \* sta b,x
   Rd(Step(c0).mem, (b + x) % 256) = 90
 
-AllHold == AdcArithmetic /\ SbcArithmetic /\ CompareIsSubtractWithoutStore /\ LogicIsBitwise /\ ShiftsRoundTrip
+(* ---- round 4: status register on the stack, rti, indirect jump *)
+AllFlags == [c : BOOLEAN, z : BOOLEAN, i : BOOLEAN, d : BOOLEAN, v : BOOLEAN, n : BOOLEAN]
+WithFlags(c0, f) == [c0 EXCEPT !.f = f]
+
+(* php pushes N V 1 1 D I Z C and changes nothing else; pla then sees exactly that byte *)
+PhpPushesBreakBits == \A f \in AllFlags, sp \in {0, 1, 253, 255} :
+  LET c1 == Step(WithFlags(At(0, 0, 0, sp, FALSE, <<8, 104>>), f))      \* php / pla
+      c2 == Step(c1) IN
+  /\ c1.f = f /\ c1.sp = (sp + 255) % 256 /\ c1.pc = 513
+  /\ Rd(c1.mem, 256 + sp) = PByte(f) + 48
+  /\ c2.a = PByte(f) + 48 /\ c2.sp = sp /\ (c2.a \div 16) % 4 = 3
+
+(* plp loads the six flags from any byte and ignores bits 4 and 5; php;plp is the identity on the flags *)
+PlpIgnoresBreakBits == \A b \in Byte :
+  LET c0 == [At(0, 0, 0, 252, FALSE, <<40>>) EXCEPT !.mem = (509 :> b) @@ @]        \* plp, byte at $01FD
+      c1 == Step(c0) IN
+  /\ c1.sp = 253 /\ c1.pc = 513 /\ PByte(c1.f) = b - (((b \div 16) % 4) * 16)
+  /\ c1.f = Step([c0 EXCEPT !.mem = (509 :> (IF (b \div 16) % 2 = 0 THEN b + 16 ELSE b - 16)) @@ @]).f      \* toggling bit 4 changes nothing
+PhpPlpIdentity == \A f \in AllFlags :
+  LET c2 == Step(Step(WithFlags(At(0, 0, 0, 253, FALSE, <<8, 40>>), f))) IN c2.f = f /\ c2.sp = 253
+
+(* rti = plp, then the pc from the stack WITHOUT the +1 of rts *)
+RtiRestores == \A f \in AllFlags, sp \in {0, 250, 253, 254, 255} :
+  LET c0 == [At(0, 0, 0, sp, FALSE, <<64>>) EXCEPT
+               !.mem = (256 + ((sp + 1) % 256) :> PByte(f)) @@ (256 + ((sp + 2) % 256) :> 52) @@ (256 + ((sp + 3) % 256) :> 18) @@ @]
+      c1 == Step(c0) IN
+  c1.f = f /\ c1.pc = 4660 /\ c1.sp = (sp + 3) % 256 /\ ~c1.unspec
+
+(* jmp (v): low byte at v, high byte at v+1 -- except that v = $xxFF takes the high byte from $xx00 *)
+JmpIndirect == \A lo \in Byte :
+  LET v == 768 + lo                                                       \* vector in page 3
+      c0 == [At(0, 0, 0, 253, FALSE, <<108, lo, 3>>) EXCEPT
+               !.mem = (v :> 52) @@ (IF lo = 255 THEN (768 :> 18) @@ (1024 :> 86) ELSE (v + 1 :> 18)) @@ @]
+      c1 == Step(c0) IN
+  c1.pc = 4660 /\ c1.sp = 253 /\ ~c1.unspec
+JmpIndirectTopOfMemoryOpen == Step(At(0, 0, 0, 253, FALSE, <<108, 255, 255>>)).unspec
+
+(* decimal mode: silent in the property's reading, binary in the implementation-shaped reading *)
+DecimalReadings == \A a \in {0, 9, 25, 153}, m \in {1, 9, 25, 153} :
+  LET c0 == [At(a, 0, 0, 253, FALSE, <<105, m>>) EXCEPT !.f.d = TRUE] IN
+  /\ Step(c0).unspec
+  /\ LET r == StepM(c0, TRUE) IN ~r.unspec /\ r.a = (a + m) % 256 /\ r.f.d /\ r.f.c = (a + m > 255)
+
+AllHold == PhpPushesBreakBits /\ PlpIgnoresBreakBits /\ PhpPlpIdentity /\ RtiRestores /\ JmpIndirect
+           /\ JmpIndirectTopOfMemoryOpen /\ DecimalReadings /\ AdcArithmetic /\ SbcArithmetic /\ CompareIsSubtractWithoutStore /\ LogicIsBitwise /\ ShiftsRoundTrip
            /\ JsrRtsRoundTrip /\ BranchOffsets /\ ZeroPageWraps
 ================================================================================
